@@ -119,23 +119,69 @@ def gen_scenario(rng, tier, knobs):
                                                  'mkdir']),
                     rng.randrange(n)])
     ops.sort(key=lambda o: o[0])
-    return {'layout': lay, 'tasks': tasks, 'ops': ops,
-            'sched': rng.choice(['round_robin', 'round_robin',
-                                 'backfilling']),
-            'delay_max': rng.choice([0.0, 0.0, 0.05, 0.2]),
-            'stall': rng.choice([0.0, 0.0, 0.01]),
-            'bulk_max': rng.choice([1, 4, 1024])}
+    sc = {'layout': lay, 'tasks': tasks, 'ops': ops,
+          'sched': rng.choice(['round_robin', 'round_robin',
+                               'backfilling']),
+          'delay_max': rng.choice([0.0, 0.0, 0.05, 0.2]),
+          'stall': rng.choice([0.0, 0.0, 0.01]),
+          'bulk_max': rng.choice([1, 4, 1024])}
+    # a second pilot whose agent is played by the driver ("ghost"): the task
+    # manager then serves two pilots and its components see mixed bulks.
+    # Drawn last: the rest of the scenario of a seed stays what it was.
+    if rng.random() < knobs.get('ghost_prob', 0.3):
+        # 'early': tasks name their pilot; 'late': the tmgr scheduler binds
+        # them (every task then is one the ghost can play)
+        sc['ghost'] = rng.choice(['early', 'late'])
+        for i, t in enumerate(tasks):
+            if sc['ghost'] == 'late' or rng.random() < 0.45:
+                t['ghost'] = True if sc['ghost'] == 'early' else 'any'
+                t['descr']['ranks'] = 1
+                t['descr'].pop('timeout', None)
+                t['descr'].pop('stage_on_error', None)
+                t.pop('spawn_error', None)
+                t['runtime'] = min(t['runtime'], 0.3)
+                t['outs'] = []
+                t['ins'] = [{'form': rng.choice(['bare', 'dict']),
+                             'action': rp.TRANSFER, 'src_space': 'client',
+                             'name': 'in_%d_%d.dat' % (i, k),
+                             'tgt_name': 'in_%d_%d.dat' % (i, k),
+                             'tgt_schema': 'rel', 'src_abs': False,
+                             'missing': rng.random() < 0.3}
+                            for k in range(rng.choice([0, 1, 1, 2]))]
+    # a real Pilot object (instead of a pilot dict) with data staged into
+    # the pilot sandbox by Pilot.stage_in before / after the pilot is added to
+    # the task manager; tasks then COPY / LINK that data.  Drawn last.
+    if rng.random() < knobs.get('real_pilot_prob', 0.35):
+        sc['real_pilot'] = True
+        sc['pstage'] = [{'name': 'shared_%d.dat' % k,
+                         'when': rng.choice(['before_add', 'after_add']),
+                         'form': 'dict'}
+                        for k in range(rng.randint(0, 3))]
+        for i, t in enumerate(tasks):
+            if sc['pstage'] and not t.get('ghost') and rng.random() < 0.5:
+                ps = rng.choice(sc['pstage'])
+                t['ins'] = t['ins'] + [{
+                    'form': 'dict', 'action': rng.choice([rp.COPY, rp.LINK]),
+                    'src_space': 'pilot', 'name': ps['name'],
+                    'tgt_name': rng.choice([ps['name'], 'sub/%s' % ps['name']]),
+                    'tgt_schema': 'rel', 'src_abs': False, 'missing': False,
+                    'pstaged': True}]
+    return sc
 
 
 # ------------------------------------------------------------------------------
 # reference resolver of the documented URL rules
 #
-def spaces(w, uid):
+GHOST = 'pilot.0001'
+
+
+def spaces(w, uid, ghost=False):
+    psbox = '%s/%s' % (w['ssbox'], GHOST) if ghost else w['psbox']
     return {'client' : w['csbox'],
             'resource': w['rsbox'],
             'session': w['ssbox'],
-            'pilot'  : w['psbox'],
-            'task'   : '%s/%s' % (w['psbox'], uid)}
+            'pilot'  : psbox,
+            'task'   : '%s/%s' % (psbox, uid)}
 
 
 def content_of(uid, name):
@@ -147,15 +193,20 @@ def make_directives(w, uid, t):
 
     expectations: list of dict(kind=in|out, path=expected target path,
                   content=, missing=bool, action=)'''
-    sp = spaces(w, uid)
+    sp = spaces(w, uid, t.get('ghost') is True)
+    gsp = spaces(w, uid, True)
     ins, outs, exp = list(), list(), list()
     for sd in t['ins']:
         src_dir = sp[sd['src_space']]
         src_path = '%s/%s' % (src_dir, sd['name'])
-        if not sd['missing']:
+        content = content_of(uid, sd['name'])
+        if sd.get('pstaged'):
+            # staged into the pilot sandbox by Pilot.stage_in
+            content = content_of('shared', sd['name'])
+        elif not sd['missing']:
             os.makedirs(src_dir, exist_ok=True)
             with open(src_path, 'w') as f:
-                f.write(content_of(uid, sd['name']))
+                f.write(content)
         # how the application writes the source
         if sd['src_space'] == 'client':
             src = src_path if sd.get('src_abs') else sd['name']
@@ -177,9 +228,13 @@ def make_directives(w, uid, t):
         else:
             ins.append({'source': src, 'target': tgt, 'action': sd['action']})
         exp.append({'kind': 'in', 'path': os.path.normpath(tgt_path),
-                    'content': content_of(uid, sd['name']),
+                    'content': content,
                     'missing': sd['missing'], 'action': sd['action'],
                     'name': sd['name'], 'src_path': src_path})
+        if t.get('ghost') == 'any':
+            # late binding: where the target is depends on the pilot chosen
+            exp[-1]['gpath'] = os.path.normpath('%s/%s' % (gsp['task'],
+                                                           sd['tgt_name']))
     for sd in t['outs']:
         # the simulated process "produces" its output files: the harness
         # writes them into the task sandbox when the process is spawned
@@ -213,13 +268,36 @@ def run(seed, sc, trace=None, tier='quick'):
         st = {'w': None, 'tasks': [], 'uids': [], 'exp': {}, 'cb': {},
               'samples': {}, 'plans': {}, 'exc_hit': set(), 'io_hit': set(),
               'cancel': set(), 'cancel_at': {}, 'submitted_at': {},
-              'spec': {}}
+              'spec': {}, 'ghost_seen': {}, 'pstage_err': []}
         sim.data['e2e'] = st
+
+        def ghost_agent():
+            # plays the agent of the second pilot: takes its tasks from the
+            # proxy queue and hands them back with the outcome of the plan
+            w   = st['w']
+            reg = w['client'].reg
+            qn  = rpc.PROXY_TASK_QUEUE
+            g = N.Getter(qn, url=reg['bridges.%s' % qn]['addr_get'])
+            p = N.Putter(qn, url=reg['bridges.%s' % qn]['addr_put'])
+            while True:
+                for task in g.get_nowait(qname=GHOST, timeout=500) or []:
+                    uid = task['uid']
+                    plan = st['plans'].get(uid) or {}
+                    sim.sleep(plan.get('runtime', 0.0))
+                    rc = plan.get('rc', 0)
+                    st['ghost_seen'].setdefault(uid, []).append(
+                        task['state'])
+                    task['exit_code']    = rc
+                    task['target_state'] = rps.DONE if rc == 0 else rps.FAILED
+                    task['state']        = rps.TMGR_STAGING_OUTPUT_PENDING
+                    task['$all']         = True
+                    p.put([task], qname=E.SID)
 
         def driver():
             root = sim.data['tmp']
             net = N.net()
-            w = E.build(sim, root, sc['layout'], scheduler=sc['sched'])
+            w = E.build(sim, root, sc['layout'], scheduler=sc['sched'],
+                        real_pilot=sc.get('real_pilot', False))
             st['w'] = w
             net.delay_max = sc['delay_max']
             net.bulk_max  = sc['bulk_max']
@@ -229,7 +307,42 @@ def run(seed, sc, trace=None, tier='quick'):
             def cb(task, state):
                 st['cb'].setdefault(task.uid, []).append(state)
             tmgr.register_callback(cb)
-            tmgr.add_pilots(w['pilot_doc'])
+            pilot = w['pilot_doc']
+            if w.get('pilot_obj') is not None:
+                pilot = w['pilot_obj']
+
+                def pstage(when):
+                    for ps in sc.get('pstage', []):
+                        if ps['when'] != when:
+                            continue
+                        with open('%s/%s' % (w['csbox'], ps['name']),
+                                  'w') as f:
+                            f.write(content_of('shared', ps['name']))
+                        sd = ps['name'] if ps['form'] == 'bare' else \
+                            {'source': 'client:///%s' % ps['name'],
+                             'target': 'pilot:///%s' % ps['name'],
+                             'action': rp.TRANSFER}
+                        sim.probe('pilot_stage_in')
+                        try:
+                            pilot.stage_in(sd)
+                        except K.SimKilled:
+                            raise
+                        except Exception as e:
+                            sim.log('pilot_stage_in_failed', name=ps['name'],
+                                    err=N.clean(repr(e)))
+                            st['pstage_err'].append(ps['name'])
+                pstage('before_add')
+            if sc.get('ghost'):
+                gdoc = copy.deepcopy(w['pilot_doc'])
+                gdoc['uid'] = GHOST
+                gdoc['pilot_sandbox'] = 'file://localhost%s/%s/' % (
+                    w['ssbox'], GHOST)
+                tmgr.add_pilots([pilot, gdoc])
+                sim.spawn(ghost_agent, 'ghost.agent', group='driver')
+            else:
+                tmgr.add_pilots(pilot)
+            if w.get('pilot_obj') is not None:
+                pstage('after_add')
 
             # simulated processes also "write" the task's output files
             plans = st['plans']
@@ -290,6 +403,8 @@ def run(seed, sc, trace=None, tier='quick'):
                     ins, outs, exp = make_directives(w, uid, t)
                     d = dict(t['descr'])
                     d['uid'] = uid
+                    if sc.get('ghost') == 'early':
+                        d['pilot'] = GHOST if t.get('ghost') else E.PID
                     if ins : d['input_staging']  = ins
                     if outs: d['output_staging'] = outs
                     st['exp'][uid]  = exp
@@ -585,7 +700,10 @@ def oracle_c11(sim, sc, st):
                     continue
                 if uid in st['io_hit'] or uid in st['exc_hit']:
                     continue
-                got = read(e['path'])
+                path = e['path']
+                if 'gpath' in e and task.pilot == GHOST:
+                    path = det['path'] = e['gpath']
+                got = read(path)
                 if got is None:
                     sim.violation('C11', 'in_missing', site, det)
                 elif got != e['content']:
@@ -617,7 +735,19 @@ def oracle_c11(sim, sc, st):
             uid in st['io_hit'] or uid in st['cancel'] or \
             spec['descr'].get('timeout') or \
             any(e['missing'] for e in st['exp'].get(uid, []))
-        if not bad and task.state in (rps.FAILED, rps.CANCELED) and \
+        cbs = st['cb'].get(uid, [])
+        if not bad and task.state == rps.FAILED and \
+                any(e['kind'] == 'in' for e in st['exp'].get(uid, [])) and \
+                rps.AGENT_SCHEDULING_PENDING not in cbs and \
+                rps.AGENT_EXECUTING not in cbs:
+            # nothing is wrong with this task or its directives, no fault was
+            # injected into its handling, and it failed before it had passed
+            # input staging: a directive which can be carried out was not
+            sim.violation('C11', 'in_not_carried_out', 'task',
+                          {'uid': uid, 'state': task.state,
+                           'pstage_err': st['pstage_err'],
+                           'exception': N.clean(str(task.exception))[:160]})
+        elif not bad and task.state in (rps.FAILED, rps.CANCELED) and \
                 any(e['missing'] for u in st['exp'] for e in st['exp'][u]):
             sim.violation('C11', 'fault_spread', 'other_task',
                           {'uid': uid, 'state': task.state,
@@ -705,9 +835,15 @@ INFO = {
              '/ scheduler (parent + forked child) / Popen executor / '
              'staging_output', 'StagingHelper_Local (real cp -r / os.link / '
              'shutil.move)', 'staging_directives.expand_* / complete_url',
-             'Session sandbox getters', 'BaseComponent.work_cb/advance'],
+             'Session sandbox getters', 'BaseComponent.work_cb/advance',
+             'in 35% of the runs a real PilotManager + Pilot (submit_pilots, '
+             'Pilot.stage_in before/after add_pilots, Pilot.as_dict, '
+             'PilotManager._pilot_staging_input)'],
     'stub': ['ZMQ bridges, proxy channels and registry (simulated)',
-             'pilot launching (driver adds an ACTIVE pilot dict)', 'task '
+             'pilot launching (driver adds an ACTIVE pilot dict)', 'in 30% '
+             'of the runs a second pilot whose agent is played by the driver '
+             '(tasks early bound or bound by the tmgr scheduler; its tasks '
+             'only carry client side transfers)', 'task '
              'processes (SimProc; the harness writes the declared output '
              'files at spawn)', 'Agent_0 built without constructor (no '
              'services, sub-agents, lifetime)', 'logger/profiler'],
